@@ -39,4 +39,5 @@ var (
 	errAppDefinedDataTooLarge   = errors.New("rtcp: application defined data is too large")
 	errAppDefinedInvalidName    = errors.New("rtcp: application defined name must be 4 ASCII chars")
 	errFieldOutOfRange          = errors.New("rtcp: field value does not fit its wire width")
+	errPacketTooLong            = errors.New("rtcp: packet does not fit the 16-bit length field")
 )
